@@ -219,6 +219,103 @@ Utf8Line(ci, bi) ==
     [fam |-> "utf8", tag |-> cx.n, src |-> cx.pre \o BadSeqs[bi] \o cx.post, exp |-> [c |-> "reject", prog |-> <<>>], dev |-> <<>>, bug |-> "",
      pos |-> LineColAt(cx.pre, 1, 1, 1)]
 
+-----------------------------------------------------------------------------
+(* family "ek" (7.6, 7.6.1): every reserved word, future reserved word and    *)
+(* literal word with one character written as a \uXXXX escape (first, middle, *)
+(* last) in every position an Identifier or an IdentifierName can stand       *)
+EkWords == SetToSeq(S!KeywordNames)
+EscUnit(u) == <<92, 117, 48, 48, S!HexDigit(u \div 16), S!HexDigit(u % 16)>>
+EscAt(w, p) == LET u == S!TokUnits[w] IN SubSeq(u, 1, p - 1) \o EscUnit(u[p]) \o SubSeq(u, p + 1, Len(u))
+EkPos(w, m) == LET n == Len(S!TokUnits[w]) IN IF m = 1 THEN 1 ELSE IF m = 2 THEN (n + 1) \div 2 ELSE n
+EkPrograms(E) == <<
+    <<TK("var"), E, TP(";")>>, <<TK("var"), TI("a"), TP(","), E, TP("="), TNum(<<49>>), TP(";")>>,
+    <<TK("function"), TI("f"), TP("("), E, TP(")"), TP("{"), TP("}")>>, <<TK("function"), E, TP("("), TP(")"), TP("{"), TP("}")>>,
+    <<TI("x"), TP("="), TK("function"), E, TP("("), TP(")"), TP("{"), TP("}"), TP(";")>>,
+    <<TK("try"), TP("{"), TP("}"), TK("catch"), TP("("), E, TP(")"), TP("{"), TP("}")>>,
+    <<E, TP(":"), TP(";")>>, <<E, TP(":"), TK("while"), TP("("), TI("a"), TP(")"), TK("break"), E, TP(";")>>,
+    <<TI("L"), TP(":"), TK("while"), TP("("), TI("a"), TP(")"), TK("continue"), E, TP(";")>>,
+    <<E, TP(";")>>, <<TI("x"), TP("="), E, TP(";")>>, <<TK("typeof"), E, TP(";")>>, <<E, TP("("), TI("a"), TP(")"), TP(";")>>, <<E, TP("="), TNum(<<49>>), TP(";")>>,
+    <<E, TP("("), TI("a"), TP(")"), TI("b"), TP(";")>>, <<TK("for"), TP("("), E, TK("in"), TI("a"), TP(")"), TP(";")>>, <<TK("for"), TP("("), TK("var"), E, TK("in"), TI("a"), TP(")"), TP(";")>>,
+    <<TI("x"), TP("="), TK("new"), E, TP(";")>>, <<TI("x"), TP("="), TI("a"), TK("instanceof"), E, TP(";")>>,
+    <<TI("a"), TP("."), E, TP(";")>>, <<TI("a"), TP("."), E, TP("="), TI("a"), TP("."), E, TP("("), TP(")"), TP(";")>>,
+    <<TI("x"), TP("="), TP("{"), E, TP(":"), TNum(<<49>>), TP("}"), TP(";")>>,
+    <<TI("x"), TP("="), TP("{"), TI("get"), E, TP("("), TP(")"), TP("{"), TP("}"), TP(","), TI("set"), E, TP("("), TI("v"), TP(")"), TP("{"), TP("}"), TP("}"), TP(";")>> >>
+NEkP == 23
+
+(* family "objdup" (11.1.5, clause 16): 2..4 members of ONE name over          *)
+(* {data, get, set} in every order, optionally with members of another name    *)
+(* between them, the name spelled as identifier / string / number              *)
+KindSeqs == UNION {[1..n -> {"value", "get", "set"}] : n \in 2..4}
+KindSeq == SetToSeq(KindSeqs)
+Member(kind, key, j) ==
+    CASE kind = "value" -> <<key, TP(":"), TNum(<<48 + j>>)>>
+      [] kind = "get" -> <<TI("get"), key, TP("("), TP(")"), TP("{"), TP("}")>>
+      [] kind = "set" -> <<TI("set"), key, TP("("), TI("v"), TP(")"), TP("{"), TP("}")>>
+Spellings == << <<TI("a"), TI("a")>>, <<TStr(<<34, 97, 34>>), TStr(<<39, 97, 39>>)>>, <<TI("a"), TStr(<<34, 97, 34>>)>>, <<TNum(<<49>>), TNum(<<49>>)>>,
+                <<TNum(<<49>>), TStr(<<34, 49, 34>>)>>, <<TK("if"), TStr(<<34, 105, 102, 34>>)>>, <<TStr(<<34, 92, 120, 54, 49, 34>>), TI("a")>> >>
+ObjDupSeq(ks, sp, inter) ==
+    LET n == Len(ks)
+        RECURSIVE M(_)
+        M(j) == IF j > n THEN <<>>
+                ELSE (IF j > 1 THEN <<TP(",")>> ELSE <<>>)
+                     \o Member(ks[j], Spellings[sp][1 + (j % 2)], j)
+                     \o (IF inter /\ j < n THEN <<TP(",")>> \o Member(IF j % 2 = 0 THEN "get" ELSE "value", TI("b"), j) ELSE <<>>)
+                     \o M(j + 1)
+    IN  <<TI("x"), TP("="), TP("{")>> \o M(1) \o <<TP("}"), TP(";")>>
+
+(* family "rejunk" (7.8.5, 15.10.1, 15.10.4.1): regular expression bodies made *)
+(* of every quantifier / class / group / escape form cut off at every          *)
+(* position, at the end of the body, before ")" and before "|", without and    *)
+(* with flags: as a closed literal (verdict by RegExpSpec!RxClassify: "syntax" *)
+(* = reject; "lax" / "unsupported" are not judged), as a literal that the end  *)
+(* of the input cuts off (7.8.5: no RegularExpressionLiteral: reject), and as  *)
+(* the argument of the RegExp constructor (run: must / must not throw)         *)
+RXS == INSTANCE RegExpSpec WITH Dev <- {}
+ReForms == << <<97, 123, 49, 44, 50, 125>>, <<97, 98, 123, 49, 50, 125>>, <<97, 123, 51, 44, 125>>, <<91, 97, 45, 98, 93>>, <<91, 94, 97, 45, 98, 93, 43>>,
+              <<40, 97, 41>>, <<40, 63, 58, 97, 41>>, <<40, 63, 61, 97, 41>>, <<40, 63, 33, 97, 41>>, <<92, 99, 65>>, <<92, 120, 52, 49>>, <<92, 117, 48, 48, 52, 49>>,
+              <<92, 100, 43, 63>>, <<97, 124, 98>>, <<97, 42, 63>>, <<94, 97, 36>>, <<92, 98, 65>>, <<40, 97, 41, 92, 49>>, <<97, 123, 48, 49, 125>>, <<91, 92, 93, 93>> >>
+RePrefixes == UNION {{SubSeq(ReForms[f], 1, n) : n \in 1..Len(ReForms[f])} : f \in 1..Len(ReForms)}
+ReWrap(pf, w) ==
+    CASE w = 1 -> pf
+      [] w = 2 -> <<120, 121>> \o pf
+      [] w = 3 -> pf \o <<41>>
+      [] w = 4 -> <<40>> \o pf \o <<41>>
+      [] w = 5 -> pf \o <<124, 98>>
+      [] w = 6 -> <<40, 63, 58, 120>> \o pf
+      [] w = 7 -> <<40, 120, 124>> \o pf \o <<41, 42>>
+ReJunkBodies == SetToSeq({ReWrap(pf, w) : pf \in RePrefixes, w \in 1..7})
+RECURSIVE ReLexAt(_, _, _)
+ReLexAt(b, i, ic) ==       \* 7.8.5: "ok" | "openclass" | "openesc" (no closing slash can follow) | "slash" (the body would end earlier)
+    IF i > Len(b) THEN (IF ic THEN "openclass" ELSE "ok")
+    ELSE IF b[i] = 92 THEN (IF i = Len(b) THEN "openesc" ELSE ReLexAt(b, i + 2, ic))
+    ELSE IF b[i] = 91 /\ ~ic THEN ReLexAt(b, i + 1, TRUE)
+    ELSE IF b[i] = 93 /\ ic THEN ReLexAt(b, i + 1, FALSE)
+    ELSE IF b[i] = 47 /\ ~ic THEN "slash"
+    ELSE ReLexAt(b, i + 1, ic)
+ReLex(b) == IF b = <<>> \/ b[1] = 42 THEN "slash" ELSE ReLexAt(b, 1, FALSE)
+Cls(c) == [c |-> c, prog |-> <<>>]
+PatClass(b, f) == LET c == RXS!RxClassify(b, f) IN IF c = "ok" THEN "accept" ELSE IF c = "syntax" THEN "reject" ELSE "skip"
+XEQ == <<120, 32, 61, 32>>                \* x =
+ReJunkLines(b, f) ==
+    LET lx == ReLex(b)
+        closed == IF lx = "slash" THEN "skip" ELSE IF lx # "ok" THEN "reject" ELSE PatClass(b, f)
+        \* otto: the end of the input closes a literal whose class is open, and the last character is dropped
+        b1 == SubSeq(b, 1, Len(b) - 1)
+        opendev == IF "DP25_regexp_unterminated_in_class" \in OpenDev /\ lx = "openclass" /\ b[Len(b)] = 91 /\ (b1 = <<>> \/ ReLex(b1) = "ok")
+                   THEN (IF b1 = <<>> THEN "accept" ELSE PatClass(b1, <<>>)) ELSE "reject"
+        ctor == IF lx \in {"openesc"} THEN "throw" ELSE LET c == RXS!RxClassify(b, f) IN IF c = "ok" THEN "ok" ELSE IF c = "syntax" THEN "throw" ELSE "skip"
+    IN  << [fam |-> "rejunk", tag |-> "closed", src |-> XEQ \o <<47>> \o b \o <<47>> \o f \o <<32, 59>>, exp |-> Cls(closed), dev |-> <<>>, bug |-> "", run |-> ""],
+           [fam |-> "rejunk", tag |-> "closed-eof", src |-> XEQ \o <<47>> \o b \o <<47>> \o f, exp |-> Cls(closed), dev |-> <<>>, bug |-> "", run |-> ""],
+           \* a line terminator behind the literal: an unterminated literal stays an error; otto: inside a class no error
+           \* is recorded, the literal becomes the empty pattern and parsing goes on with the next line
+           [fam |-> "rejunk", tag |-> "closed-nl", src |-> XEQ \o <<47>> \o b \o <<47>> \o f \o <<10, 59>>, exp |-> Cls(closed),
+            dev |-> IF "DP25_regexp_unterminated_in_class" \in OpenDev /\ lx \in {"openclass", "openesc"} /\ ReLexAt(b \o <<47>> \o f, 1, FALSE) = "openclass"
+                    THEN <<Cls("accept")>> ELSE <<>>, bug |-> "", run |-> ""],
+           [fam |-> "rejunk", tag |-> "cut-off", src |-> XEQ \o <<47>> \o b, exp |-> Cls(IF lx = "slash" THEN "skip" ELSE "reject"),
+            dev |-> IF opendev = "reject" THEN <<>> ELSE <<Cls(opendev)>>, bug |-> "", run |-> ""],
+           [fam |-> "rejunk", tag |-> "constructor", src |-> <<110, 101, 119, 32, 82, 101, 103, 69, 120, 112, 40>> \o S!StrSrc(b) \o <<44, 32>> \o S!StrSrc(f) \o <<41, 59>>,
+            exp |-> Cls("skip"), dev |-> <<>>, bug |-> "", run |-> ctor] >>
+
 MInit == cs = None /\ blk \in {<<f, j>> : f \in Fams, j \in 1..NSeeds}
 MNext ==
     /\ cs = None
@@ -228,13 +325,21 @@ MNext ==
          [] blk[1] = "early" -> blk[2] > NSeeds - Len(EarlyPool) /\ cs' = [t |-> "seq", fam |-> "early", T |-> T]
          [] blk[1] = "after" -> blk[2] <= Len(CtxPool) /\ \E ji \in 1..Len(JumpPool), pi \in 1..Len(Placements), inFn \in BOOLEAN :
                                     cs' = [t |-> "after", fam |-> "after", T |-> AfterSeq(blk[2], ji, pi, inFn), tag |-> Placements[pi]]
+         [] blk[1] = "ek" -> blk[2] <= Len(EkWords) /\ \E m \in 1..3, pg \in 1..NEkP :
+                                 LET w == EkWords[blk[2]] IN cs' = [t |-> "one", fam |-> "ek", tag |-> w, T |-> EkPrograms(S!TEk(w, EscAt(w, EkPos(w, m))))[pg]]
+         [] blk[1] = "objdup" -> blk[2] <= Len(KindSeq) /\ \E sp \in 1..Len(Spellings), inter \in BOOLEAN :
+                                 cs' = [t |-> "one", fam |-> "objdup", tag |-> "members", T |-> ObjDupSeq(KindSeq[blk[2]], sp, inter)]
+         [] blk[1] = "rejunk" -> blk[2] <= 64 /\ \E j \in {x \in 1..Len(ReJunkBodies) : x % 64 = blk[2] - 1}, fl \in {<<>>, <<103>>} :
+                                 cs' = [t |-> "rejunk", fam |-> "rejunk", b |-> ReJunkBodies[j], f |-> fl]
          [] blk[1] = "utf8" -> blk[2] <= Len(Utf8Ctx) /\ \E bi \in 1..Len(BadSeqs) : cs' = [t |-> "utf8", fam |-> "utf8", ci |-> blk[2], bi |-> bi]
 MLines(c) ==
     IF c.t = "mut" THEN LET T2 == Mutate(c.T, c.m) IN <<Spec0("mut", c.m.k, T2, MutSeps(T2, c.m), FALSE, <<>>)>>
+    ELSE IF c.t = "one" THEN <<Spec0(c.fam, c.tag, c.T, AllSep(Len(c.T), "sp"), FALSE, <<>>)>>
     ELSE IF c.t = "after" THEN <<Spec0("after", c.tag, c.T, AllSep(Len(c.T), "sp"), FALSE, <<>>), Spec0("after", c.tag, c.T, NLAll(Len(c.T), 1 + ((Len(c.T) + Salt) % NLK)), FALSE, <<>>)>>
     ELSE SeqCases(c.fam, c.T)
 MEmit ==
     cs = None
     \/ (cs.t = "utf8" /\ PrintT("VJSON " \o ToJson(Utf8Line(cs.ci, cs.bi))))
-    \/ (cs.t # "utf8" /\ LET ls == MLines(cs) IN \A j \in 1..Len(ls) : PrintT("VJSON " \o ToJson(Line(ls[j]))))
+    \/ (cs.t = "rejunk" /\ LET ls == ReJunkLines(cs.b, cs.f) IN \A j \in 1..Len(ls) : PrintT("VJSON " \o ToJson(ls[j])))
+    \/ (cs.t \notin {"utf8", "rejunk"} /\ LET ls == MLines(cs) IN \A j \in 1..Len(ls) : PrintT("VJSON " \o ToJson(Line(ls[j]))))
 =============================================================================
